@@ -69,6 +69,13 @@ func Main(property string) {
 			if *tier == "thorough" && i%3 == 0 {
 				o = GenOpts{MaxScript: 30, MinMsgs: 10, MaxMsgs: 40, Ics: property == "C18a", Steer: i%4 == 3}
 			}
+			if i%10 == 9 {
+				// a share of the runs: leader unavailable exactly at a retry-level flush, then a second retry episode
+				codes := []int16{6, 7, 19, 3, 5}
+				scs = append(scs, FlushFail(GenName(property, *seed, i), 1+r.Intn(2), 1+r.Intn(2), 1+r.Intn(3), 1+r.Intn(3),
+					codes[r.Intn(len(codes))], []int{0, 1, 256}[r.Intn(3)]))
+				continue
+			}
 			scs = append(scs, Gen(r, GenName(property, *seed, i), o))
 		}
 	}
